@@ -82,6 +82,7 @@ def stage(mjm, mjd):
 def extract(mjm, mjd):
   out = {k: getattr(mjd, k) for k in NAMES}
   out["qacc_smooth"] = mjd.qacc_smooth
+  out["qfrc_actuator"] = mjd.qfrc_actuator
   return out
 
 
@@ -122,9 +123,18 @@ def run_case(case):
   mjw.fwd_velocity(m, d)
   mjw.fwd_actuation(m, d)
   mjw.fwd_acceleration(m, d)
-  got = {k: mw.npy(getattr(d, k)) for k in NAMES + ["qacc_smooth"]}
+  got = {k: mw.npy(getattr(d, k)) for k in NAMES + ["qacc_smooth", "qfrc_actuator"]}
   for w in range(nworld):
     ref, noise, mjd = cmp.reference(mjm, states[w], stage, extract, seed=case["seed"] + w)
+    # actuation (actuator_force, its clamps, qfrc_actuator) is C03's subject: the smooth force is judged with MJWarp's own
+    # actuator term substituted into the reference, so that an actuation difference (e.g. the listed C03 finding on
+    # forcerange vs tendon actuatorfrcrange order) is not re-reported here as a smooth-dynamics difference
+    ga = np.asarray(got["qfrc_actuator"][w], dtype=np.float64).reshape(-1)[: mjm.nv]
+    dact = ga - np.asarray(ref["qfrc_actuator"], dtype=np.float64).reshape(-1)
+    if np.abs(dact).max(initial=0) > 1e-4 * max(1.0, float(np.abs(ref["qfrc_actuator"]).max(initial=0))):
+      rec.count("worlds_where_qfrc_actuator_differs_from_mujoco(C03 subject, substituted)")
+    ref = dict(ref)
+    ref["qfrc_smooth"] = np.asarray(ref["qfrc_smooth"], dtype=np.float64) + dact.reshape(np.asarray(ref["qfrc_smooth"]).shape)
     for k in NAMES:
       r = ref[k]
       g = np.asarray(got[k][w]).reshape(-1)[: r.size].reshape(r.shape)
